@@ -20,26 +20,82 @@
 (*   lretain  tables of retained mw libraries        (see Dev)                *)
 (*   memo     get_page memo                          add_page (coherent)      *)
 (*   tags     allowed HTML tag table                 per context (see Dev)    *)
+(* OPTIONS OF ONE CALL (round 8): the arguments of expand() / parse() are cells  *)
+(* too - what one call was given must not be in force for a later call.         *)
+(*   cell        argument(s)                       kept in          reset by    *)
+(*   otimelimit  timeout=                          _lua_current_max_time, _lua_deadline of the Lua *)
+(*                                                 runtime (one per context)                        *)
+(*                                                 every top-level #invoke (_lua_set_timeout takes  *)
+(*                                                 the limit of THIS call or the default)           *)
+(*   oinvoke     expand_invoke=                    locals of the call   every call (own argument / default) *)
+(*   oparserfns  expand_parserfns=                 "                    "       *)
+(*   opreexpand  pre_expand= (expand and parse)    "                    "       *)
+(*   otmplsets   templates_to_expand= / templates_to_not_expand= / additional_expand= / do_not_pre_expand= *)
+(*   otmplfns    template_fn= / post_template_fn=  "                    "       *)
+(*   oexpandall  expand_all= of parse()            "                    "       *)
+(*   oquiet      quiet=                            "                    "       *)
+(* Writer kinds (opt...) process ONE probe text with one option set, the reader  *)
+(* kind optProbe processes the same text with the defaults; slowModule is the    *)
+(* reader of the time limit (a module that runs longer than the small limit of   *)
+(* the writers and far shorter than the default).                                *)
 (* A page is one atom here; the invocations INSIDE one page (lglobal, lloaded, *)
 (* lstring, luastk per #invoke) are modelled in ContextInvoke.tla.             *)
 EXTENDS Naturals, Sequences, FiniteSets, TLC
 
 CONSTANT Dev   \* deviations: "ExtensionTagsShared", "StringMetatableShared", "RetainedLibraryTablesShared"
+               \* (classes of seeded changes, never as-is:) "TimeLimitKept": a top-level #invoke whose call gives no
+               \*    (acceptable) timeout runs under the limit an earlier call left in the Lua runtime;
+               \*    "CallOptionsKept": an argument not given to a call keeps the value an earlier call was given
 
+\* options of one call
+CallOptCells == {"oinvoke", "oparserfns", "opreexpand", "otmplsets", "otmplfns", "oexpandall", "oquiet"}
+OptCells == CallOptCells \cup {"otimelimit"}
 Cells == {"parser", "cookies", "path", "msgs", "strip", "luastk", "lglobal", "lloaded", "ldata",
-          "lstring", "lsmeta", "lretain", "memo", "tags"}
+          "lstring", "lsmeta", "lretain", "memo", "tags"} \cup OptCells
 
+\* round 8: kinds about the options of a call
+OptWriters == {"optTimeLimit", "optNoInvoke", "optNoParserFns", "optPreExpand", "optTemplateSets", "optTemplateFns", "optQuiet",
+               "optAll", "optParsePreExpand", "optParseHooks"}
+OptKinds == OptWriters \cup {"optProbe", "optParseProbe", "slowModule"}
+\* kinds that take seconds of wall-clock time (the harness keeps them rare)
+SlowKinds == {"slowModule", "luaTimeout"}
 \* page kinds (the harness has one concrete page per kind)
 Kinds == {"unclosedMarkup", "unclosedTable", "preTag", "manyCalls", "templateLoop", "sectionError", "templateNowiki",
           "luaGlobal", "luaString", "luaStringMeta", "luaRequired", "luaRetained", "luaLoadData", "luaLoadJson",
           "luaStripMarker", "luaError", "luaTimeout", "parseExpandAll", "otherContextWithExtTags", "otherContextRedefiningTag", "extTagPage"}
+         \cup OptKinds
 
-IsLua(k) == k \in {"luaGlobal", "luaString", "luaStringMeta", "luaRequired", "luaRetained", "luaLoadData", "luaLoadJson",
+\* the option set a kind passes to its call: the cells it sets to something else than the default
+OptionsOf(k) ==
+  CASE k = "optTimeLimit" -> {"otimelimit"}                  \* expand(probe, timeout = small)
+    [] k = "luaTimeout" -> {"otimelimit"}                    \* expand(endless loop, timeout = 1)
+    [] k = "optNoInvoke" -> {"oinvoke"}                      \* expand(probe, expand_invoke = False)
+    [] k = "optNoParserFns" -> {"oparserfns"}                \* expand(probe, expand_parserfns = False)
+    [] k = "optPreExpand" -> {"opreexpand"}                  \* expand(probe, pre_expand = True)
+    [] k = "optTemplateSets" -> {"opreexpand", "otmplsets"}  \* expand(probe, pre_expand = True, templates_to_expand / _to_not_expand)
+    [] k = "optTemplateFns" -> {"otmplfns"}                  \* expand(probe, template_fn, post_template_fn)
+    [] k = "optQuiet" -> {"oquiet"}                          \* expand(probe, quiet = True)
+    [] k = "optAll" -> CallOptCells \ {"oexpandall"}         \* every option of expand() but the time limit
+    [] k = "optParsePreExpand" -> {"opreexpand", "otmplsets"}   \* parse(probe, pre_expand = True, additional_expand, do_not_pre_expand)
+    [] k = "optParseHooks" -> {"oexpandall", "otmplfns"}     \* parse(probe, expand_all = True, template_fn, post_template_fn)
+    [] k = "parseExpandAll" -> {"oexpandall"}
+    [] OTHER -> {}
+
+\* kinds whose call reaches a top-level #invoke (the probe text has one; not when the options keep #invoke unexpanded)
+OptLua(k) == k \in OptKinds \ {"optNoInvoke", "optNoParserFns", "optAll", "optParseProbe"}
+OptParse(k) == k \in {"optParsePreExpand", "optParseHooks", "optParseProbe"}
+IsLua(k) == OptLua(k) \/ k \in {"luaGlobal", "luaString", "luaStringMeta", "luaRequired", "luaRetained", "luaLoadData", "luaLoadJson",
                    "luaStripMarker", "luaError", "luaTimeout"}
-IsParse(k) == k \in {"unclosedMarkup", "unclosedTable", "preTag", "parseExpandAll", "extTagPage"}
+IsParse(k) == OptParse(k) \/ k \in {"unclosedMarkup", "unclosedTable", "preTag", "parseExpandAll", "extTagPage"}
 
 \* cells whose value can influence the result of a page of this kind
-Reads(k) ==
+\* every call reads its options: what the text of the page makes of them (templates / parser functions / #invoke);
+\* only an invocation that runs for long reads the time limit (the clock of the sandbox has granules of 1 s)
+OptReads(k) ==
+  IF k \in {"otherContextWithExtTags", "otherContextRedefiningTag"} THEN {}
+  ELSE IF IsParse(k) /\ ~OptParse(k) /\ k # "parseExpandAll" THEN {"opreexpand", "otmplsets", "oexpandall"}
+  ELSE CallOptCells \cup (IF k \in SlowKinds THEN {"otimelimit"} ELSE {})
+BaseReads(k) ==
   CASE k \in {"unclosedMarkup", "unclosedTable", "preTag"} -> {"parser", "cookies", "tags", "msgs"}
     [] k = "extTagPage" -> {"parser", "cookies", "tags", "msgs"}
     [] k = "parseExpandAll" -> {"parser", "cookies", "path", "msgs", "memo", "tags"}
@@ -56,6 +112,11 @@ Reads(k) ==
     [] k \in {"luaError", "luaTimeout"} -> {"cookies", "path", "msgs", "luastk"}
     \* otherContextRedefiningTag: another context whose extension tags give a built-in tag name other data
     [] k \in {"otherContextWithExtTags", "otherContextRedefiningTag"} -> {}
+    \* the probe text: a template, a parser function, two #invoke, a template needing pre-expansion, an undefined template
+    [] OptLua(k) /\ ~OptParse(k) -> {"cookies", "path", "msgs", "memo", "luastk", "lglobal"}
+    [] OptParse(k) -> {"parser", "cookies", "path", "msgs", "memo", "tags"} \cup (IF OptLua(k) THEN {"luastk", "lglobal"} ELSE {})
+    [] k \in OptKinds -> {"cookies", "path", "msgs", "memo"}
+Reads(k) == BaseReads(k) \cup OptReads(k)
 
 \* cells a page of this kind leaves changed when it returns (after the code's own clean-up)
 Writes(k) ==
@@ -71,6 +132,11 @@ Writes(k) ==
           [] k = "luaStripMarker" -> {"strip"}
           [] k \in {"otherContextWithExtTags", "otherContextRedefiningTag"} -> IF "ExtensionTagsShared" \in Dev THEN {"tags"} ELSE {}
           [] OTHER -> {})
+  \cup (IF k \in OptKinds \ {"slowModule"} THEN {"cookies", "msgs", "memo"} \cup (IF OptLua(k) THEN {"lglobal"} ELSE {}) ELSE {})
+  \* the option set of the call: the locals of the call die with it (a deviation keeps them); the time limit is
+  \* stored in the Lua runtime by the top-level #invoke that takes it and stays there
+  \cup (OptionsOf(k) \cap {"otimelimit"})
+  \cup (IF "CallOptionsKept" \in Dev THEN OptionsOf(k) \cap CallOptCells ELSE {})
 
 \* cells the processing of a page resets before they are read: start_page, then the
 \* call itself (parse resets the parser cells; a top-level #invoke resets the Lua environment)
@@ -80,7 +146,12 @@ Resets(k) ==
   \cup (IF IsLua(k) THEN {"lglobal", "lloaded", "lstring"}
                          \cup (IF "StringMetatableShared" \in Dev THEN {} ELSE {"lsmeta"})
                          \cup (IF "RetainedLibraryTablesShared" \in Dev THEN {} ELSE {"lretain"})
+                         \* _lua_set_timeout: the limit of this call, or the default when the call gives none
+                         \cup (IF "TimeLimitKept" \in Dev /\ "otimelimit" \notin OptionsOf(k) THEN {} ELSE {"otimelimit"})
         ELSE {})
+  \* every call takes its own arguments (defaults where none is given)
+  \cup (IF k \in {"otherContextWithExtTags", "otherContextRedefiningTag"} THEN {}
+        ELSE IF "CallOptionsKept" \in Dev THEN OptionsOf(k) \cap CallOptCells ELSE CallOptCells)
 \* "memo" is never reset but is coherent with the database (C10), so reading it is harmless
 Harmless == {"memo"}
 
